@@ -10,5 +10,7 @@ CONSTANTS
   EmptyReq = "empty"
   ModeReq = "mode"
   Variant = "fixed"
+  TrackHeld = FALSE
+  ReturnsView = FALSE
 POSTCONDITION TraceDone
 CHECK_DEADLOCK FALSE
